@@ -22,7 +22,7 @@ def not_error_exit(cls):
     return cls is None or not (cls == "Residual" or cls.startswith("Err") or cls.startswith("Ready(Err"))
 
 
-@rule("C02.1", ["C02", "C19", "C08", "C17", "C03"], ["E3"], "every cross-task state change wakes its counterpart",
+@rule("C02.1", ["C02", "C19", "C08", "C17", "C03", "C07"], ["E3"], "every cross-task state change wakes its counterpart",
       "For each (event, waker field): on every path from the event to a (non-error) exit of the function, Option::take is called on the waker field and Waker::wake on its Some branch "
       "(a None result discharges: nobody waits). Events: writes of true to writer_shutdown / writer_dropped (-> UserTxLocked.dispatcher_waker), UserTxLocked.vsock_closed (-> writer_waker), "
       "reader_dropped (-> UserRxSharedLocked.dispatcher_waker), UserRxSharedLocked.vsock_closed (-> reader_waker); calls UserTx::truncate_front and UserTx::grow=Some (-> writer_waker); "
